@@ -44,6 +44,11 @@ def judge(prog, req, got_kind, got, values=None):
     if exp[0] == "err":
         if got_kind == "err" and got == exp[1]:
             return []
+        if exp[1] == "Key" and got_kind == "ok" and lf.preset_clash(prog, req):
+            # known finding: the missing-input test of build compares NAMES
+            return [(f"{d}:error:expected-Key-got-ok:preset-name-equals-key",
+                     "an output depends on an unlisted argument made by spox._graph.arguments_dict whose preset name equals a key of "
+                     "`inputs`: build should raise KeyError but returns a model whose input of that name is the unlisted argument")]
         seen = "a model" if got_kind == "ok" else got + "Error"
         return [(f"{d}:error:expected-{exp[1]}-got-{'ok' if got_kind == 'ok' else got}",
                  f"build should raise {exp[1]}Error ({req.get('kind', '?')} request) but produced {seen}")]
@@ -174,7 +179,7 @@ def shrink(prog, req, key, check):
 # ----------------------------------------------------------------------------- the check
 def model_request(prog, req, pi=0):
     return {"objs": lf.to_objs(prog), "inputs": req["inputs"], "outputs": req["outputs"], "drop": req["drop"],
-            "pi": pi, "fixed": True, "store": []}
+            "pi": pi, "fixed": True, "store": lf.preset_store(prog)}
 
 
 def run(ck: core.Check):
@@ -195,6 +200,10 @@ def run(ck: core.Check):
     for _ in range(n_prog):
         prog = lf.gen_program(rng, domains=(rng.random() < 0.2))  # a fifth with inlined custom-domain models (no runtime semantics)
         reqs = [lf.gen_request(rng, prog, allow_dup=(rng.random() < 0.15)) for _ in range(3)]
+        if rng.random() < 0.25:
+            clash = lf.gen_preset_clash_request(rng, prog)
+            if clash is not None:
+                reqs.append(clash)
         if rng.random() < 0.3:
             odd = lf.gen_odd_request(rng, prog)
             if odd is not None:
@@ -247,6 +256,9 @@ def run(ck: core.Check):
             k += len(reqs)
             continue
         stats["max_objs"] = max(stats["max_objs"], prog["n"])
+        stats.setdefault("opsets", {})[str(prog.get("opset", 17))] = stats.setdefault("opsets", {}).get(str(prog.get("opset", 17)), 0) + 1
+        stats["preset_named_args"] = stats.get("preset_named_args", 0) + len(lf.preset_store(prog))
+        stats["default_valued_args"] = stats.get("default_valued_args", 0) + sum(1 for n_ in prog["nodes"] if n_.get("default"))
         # hypothesis WF of discover_all_arguments_spec: every reference points to an older object
         for i_, o_ in enumerate(lf.to_objs(prog)):
             refs = o_["deps"] + [x for b in o_["subs"] for x in b["formals"] + b["results"]]
@@ -313,6 +325,11 @@ def run(ck: core.Check):
                     ok = m["res"].get("err") == got[1]
                 if ok and "names" in m:
                     ok = m["names"] == names_after
+                if m.get("noclash") is False:
+                    # the side condition of the *_noclash theorems fails exactly on the known-finding witnesses
+                    stats["noclash_false"] = stats.get("noclash_false", 0) + 1
+                    if not (lf.preset_clash(prog, dict(req, drop=True)) or lf.preset_output_clash(prog, req)):
+                        ck.broken("correspondence", "C03 driver reports NoClash = false on a request without a preset-name clash", str(req)[:300])
                 if m.get("wf") is not True and "error" not in m:
                     ck.broken("correspondence", "C03 generated program violates the model's WF hypothesis (wfb = false)", str(lf.to_objs(prog))[:600])
                 if not ok:
